@@ -283,6 +283,10 @@ impl EditState {
             if area.is_empty() {
                 return Ok(());
             }
+            if area.get_height() == 1 && area.get_width() < layer.get_width() {
+                // a single row scrolls onto itself
+                return Ok(());
+            }
             if area.get_width() >= layer.get_width() {
                 let op = super::undo_operations::UndoScrollWholeLayerUp::new(self.get_current_layer()?);
                 return self.push_undo_action(Box::new(op));
@@ -322,6 +326,10 @@ impl EditState {
         if let Some(layer) = self.get_cur_layer_mut() {
             let area = get_area(sel, layer.get_rectangle());
             if area.is_empty() {
+                return Ok(());
+            }
+            if area.get_height() == 1 && area.get_width() < layer.get_width() {
+                // a single row scrolls onto itself
                 return Ok(());
             }
             if area.get_width() >= layer.get_width() {
